@@ -370,11 +370,13 @@ PROPS['C09'] = dict(
 
 def upd_streams(tier):
     n = {'quick': 16000, 'extended': 100000, 'thorough': 600000}[tier]
-    return [dict(name='update-twice', harness=['upd', str(n), '{seed}', '{shard}', '{nshards}'], driver='upd')]
+    m = {'quick': 160, 'extended': 1600, 'thorough': 4800}[tier]
+    return [dict(name='update-twice', harness=['upd', str(n), '{seed}', '{shard}', '{nshards}'], driver='upd'),
+            dict(name='cli-update-twice', harness=['updcli', str(m), '{seed}', '{shard}', '{nshards}'], driver='upd', timeout=3000)]
 
 
 PROPS['C10'] = dict(
-    family='line', tags={'U': 'upd'},
+    family='line', tags={'U': 'upd', 'K': 'upd'}, needs_scrut_bin=True,
     theorems=['C10_outside_preserved', 'C10_tokens_well_shaped', 'C10_nothing_truncated', 'C10_fence_safe', 'C10_update_is_substitution', 'C10_same_commands', 'C10_idempotent'],
     streams=upd_streams,
     spec_kinds=['SPEC:C10'], corr_kinds=['DIFF:update'],
@@ -397,7 +399,7 @@ def yaml_streams(tier):
 
 PROPS['C17'] = dict(
     family='line', tags={'Y': 'yaml'},
-    theorems=['C17_quoted_round_trip', 'C17_quoted_clean', 'C17_scalar_round_trip', 'C17_environment_reads_back', 'C17_duration_round_trip', 'C17_one_liner_reads_back', 'C17_one_liner_inline'],
+    theorems=['C17_quoted_round_trip', 'C17_quoted_clean', 'C17_scalar_round_trip', 'C17_environment_reads_back', 'C17_duration_round_trip', 'C17_one_liner_reads_back', 'C17_one_liner_inline', 'C17_left_out_defaults_come_back'],
     streams=yaml_streams,
     spec_kinds=['SPEC:C17'], corr_kinds=['DIFF:one-liner'],
     case_format='Y 1 <test-case configuration: os= kc= to=<secs.nanos> de= sk= sa= wa=<wait timeout> wp=x<hex wait path> env=x<hex name>:x<hex value>,...>|<hex of the one-line form>|<the configuration MarkdownParser reads back from ```scrut {...}>   '
